@@ -14,6 +14,13 @@ func init() {
 				Name: "bmc-k3", Entry: "VerifBufBMC", Unwind: 10,
 				Params: map[string]int64{"k": 3}, AssertPrefix: prefix,
 			}}
+			if prefix == "C07:" {
+				// limits changed mid-history, also to values below the current occupancy
+				rs = append(rs, gosym.RunConfig{Name: "limit-change-P2", Entry: "VerifBufLimitChange", Unwind: 10,
+					Params: map[string]int64{"P": 2}, AssertPrefix: "C0", NoValidate: true})
+				rs = append(rs, gosym.RunConfig{Name: "limit-change-P3", Entry: "VerifBufLimitChange", Unwind: 10,
+					Params: map[string]int64{"P": 3}, AssertPrefix: "C0", NoValidate: true})
+			}
 			maxK := int64(1)
 			if tier == "thorough" {
 				maxK = 2
@@ -35,7 +42,7 @@ func init() {
 		}
 	}
 	bounds := func(tier string) []string {
-		return []string{"histories of 3 operations (4 operations were measured above 15 minutes and are not registered) from NewBuffer(): Write (length 0..70000, any content), Read (destination 0..70000), Close, SetLimitCount(0..6), SetLimitSize(0..200000) in any order; one inductive step (Write or Read) from an arbitrary ring with up to 1 resident packet (thorough: a Read also from a ring with 2 resident packets)",
+		return []string{"histories of 3 operations (4 operations were measured above 15 minutes and are not registered) from NewBuffer(): Write (length 0..70000, any content), Read (destination 0..70000), Close, SetLimitCount(0..6), SetLimitSize(0..200000) in any order; (C07) 2 or 3 resident packets of length 0..3000, optionally one read, then SetLimitCount(0..6) and SetLimitSize(0..10000) with any values including ones below the current occupancy, then one Write of length 0..3000; one inductive step (Write or Read) from an arbitrary ring with up to 1 resident packet (thorough: a Read also from a ring with 2 resident packets)",
 			"ring growth loop unwound up to 10 times (unwinding obligation discharged)"}
 	}
 	assume := []string{
